@@ -39,7 +39,7 @@ def sparse_endgames(rng, n):
 def engine_job(args):
     net, opts, jobs = args
     recs = []
-    eng = uci.Engine("plain", net[0], net[1])
+    eng = uci.Engine("plain", net[0], net[1], env={"TEXEL_VERIF_POSGUARD": "1"})
     try:
         eng.handshake()
         for k, v in opts.items(): eng.setoption(k, v)
@@ -85,13 +85,34 @@ def run(ctx):
         if a != b:
             ctx.violation(f"mate-in-one oracle: harness solver says {a}, Lean specification says {b} on `{f}`", {"kind": "correspondence", "input": [f]}, no_input=True); break
     mate1 = [f for f, b in zip(cands, m1l) if b == "1"]
+    # mate-in-one positions of the rare move classes (promotion, capture-promotion, castling, en passant, discovered check)
+    rare = chessgen.mate1_candidates(r, 30000 if quick else 400000)
+    rc, fo2, _ = vlib.run_lines(vh, [f"chess fen {f}" for f in rare])
+    rare = list(dict.fromkeys(o[3:] for o in fo2 if o.startswith("ok ")))
+    # classification by the Lean specification (not by the engine's own move generator), in parallel
+    import concurrent.futures as _cf
+    nchunk = max(1, min(vlib.NCPU, 8))
+    parts = [rare[i::nchunk] for i in range(nchunk)]
+    with _cf.ThreadPoolExecutor(nchunk) as ex:
+        outs = list(ex.map(lambda pt: vlib.run_lines(vlib.driver_bin(), [f"mate mate1mv {f}" for f in pt])[1], parts))
+    byclass = {}
+    for pt, ot in zip(parts, outs):
+        for f, mv in zip(pt, ot):
+            if mv and not mv.startswith("err") and mv != "bad-op":
+                for m in mv.split()[:1]:
+                    byclass.setdefault(chessgen.move_class(f, m), []).append(f)
+    rare_sel = []
+    for cls, fl in sorted(byclass.items()):
+        r.shuffle(fl); rare_sel += fl[:(14 if quick else 300) if cls not in ("quiet", "capture") else (4 if quick else 50)]
+    ctx.cov["mate1_classes"] = {k: len(v) for k, v in sorted(byclass.items())}
+    mate1 = rare_sel + mate1
     rest = [f for f, b in zip(cands, m1l) if b == "0"]
     rc, sol, _ = vlib.run_lines(vh, [f"mate solve 3 {SOLVE_BUDGET} {f}" for f in rest[:1500 if quick else 40000]])
     mates23 = [f for f, s in zip(rest, sol) if s.startswith("win ")]
     nomate = [f for f, s in zip(rest, sol) if s.startswith("nowin ")]
-    r.shuffle(mate1); r.shuffle(mates23); r.shuffle(nomate)
+    r.shuffle(mates23); r.shuffle(nomate)
     n1, n23, n0 = (60, 60, 25) if quick else (2500, 2500, 600)
-    mate1, mates23, nomate = mate1[:n1], mates23[:n23], nomate[:n0]
+    mate1, mates23, nomate = mate1[:n1 + len(rare_sel)], mates23[:n23], nomate[:n0]
     ctx.cov["position_classes"] = {"candidates": len(cands), "mate_in_1": len(mate1), "mate_in_2_or_3": len(mates23), "no_mate_within_3": len(nomate)}
     # ---- engine runs
     nets = [("material", 1), ("small", 2), ("big", 3)]
@@ -134,6 +155,10 @@ def audit(ctx, vh, recs, m1_jobs):
             ctx.violation(f"engine failed: {rec['error']}", {"kind": "engine-failure", "fen": rec["fen"], "go": rec["go"], "opts": rec["opts"]}); continue
         ctx.count(); ctx.distinct((rec["fen"], rec["go"], str(rec["opts"]), str(rec.get("net"))))
         stats["searches"] += 1
+        pg = [l for l in rec["out"] if "verif posguard" in l]
+        if pg:
+            ctx.violation(f"a search node did not restore the position during `{rec['go']}` on `{rec['fen']}`: {pg[0][:160]}",
+                          {"kind": "property-predicate", "fen": rec["fen"], "go": rec["go"], "opts": rec["opts"], "net": rec.get("net"), "report": pg[0]})
         last = None
         for line in rec["out"]:
             if line.startswith("info") and " score mate " in line and " pv" in line:
